@@ -39,4 +39,12 @@ OBLIGATIONS = {
         "C10.stuck_ignores_others", "C10.stuck_cons_other", "C10.lookup_perm", "C10.stuck_perm",
         "C10.new_particle_not_stuck",
     ],
+    "C08": [
+        "C08.tau_formula", "C08.update_z", "C08.update_active", "C08.sink_exact", "C08.sink_exact_mixing",
+        "C08.stays_suspended", "C08.settle_on_bed", "C08.settled_rests", "C08.never_resuspends_without_taucrit",
+        "C08.resuspends_iff", "C08.flag_range", "C08.flag_distinct", "C08.flag_never_back_to_one", "C08.flag_history",
+        "C08.mine_settled_leaves", "C08.nearest_cell_is_nearest", "C08.nearest_cell_clamped", "C08.taucrit_bin_table",
+        "C08.taucrit_poly_default", "C08.taucrit_poly_pos", "C08.cache_fresh", "C08.cache_same_step",
+        "C08.cache_transparent", "RealInst.sqrtLaws",
+    ],
 }
